@@ -25,16 +25,37 @@ def _limits(mem_gb):
     return f
 
 
+def _killpg(pr):
+    """kill the process and everything it started (cbmc --cvc5 runs the SMT solver as a child that would otherwise survive)"""
+    import os, signal
+    try:
+        os.killpg(pr.pid, signal.SIGKILL)
+    except Exception:
+        try:
+            pr.kill()
+        except Exception:
+            pass
+    try:
+        pr.wait(timeout=10)
+    except Exception:
+        pass
+
+
 def _run(cmd, timeout, mem_gb, log, cwd=None):
     t0 = time.time()
+    pr = subprocess.Popen(cmd, stdout=subprocess.PIPE, stderr=subprocess.PIPE, text=True, preexec_fn=_limits(mem_gb), cwd=cwd,
+                          start_new_session=True)
     try:
-        p = subprocess.run(cmd, stdout=subprocess.PIPE, stderr=subprocess.PIPE, text=True, timeout=timeout,
-                           preexec_fn=_limits(mem_gb), cwd=cwd)
+        out, err = pr.communicate(timeout=timeout)
     except subprocess.TimeoutExpired:
+        _killpg(pr)
         log.append({"cmd": " ".join(cmd), "timeout_s": timeout})
         raise Undecided("timeout after %ds: %s" % (timeout, " ".join(cmd[:3])))
-    log.append({"cmd": " ".join(cmd), "rc": p.returncode, "s": round(time.time() - t0, 2)})
-    return p
+    except BaseException:
+        _killpg(pr)
+        raise
+    log.append({"cmd": " ".join(cmd), "rc": pr.returncode, "s": round(time.time() - t0, 2)})
+    return _P(pr.returncode, out, err)
 
 
 class _P:
@@ -51,7 +72,7 @@ def _race(cmds, timeout, mem_gb, res):
     for cmd in cmds:
         fo = tempfile.TemporaryFile(mode="w+")
         fe = tempfile.TemporaryFile(mode="w+")
-        procs.append((cmd, subprocess.Popen(cmd, stdout=fo, stderr=fe, text=True, preexec_fn=_limits(mem_gb)), fo, fe))
+        procs.append((cmd, subprocess.Popen(cmd, stdout=fo, stderr=fe, text=True, preexec_fn=_limits(mem_gb), start_new_session=True), fo, fe))
     winner = None
     try:
         while time.time() - t0 < timeout:
@@ -76,8 +97,9 @@ def _race(cmds, timeout, mem_gb, res):
     finally:
         for cmd, pr, fo, fe in procs:
             if pr.poll() is None:
-                pr.kill()
-                pr.wait()
+                _killpg(pr)
+            else:
+                _killpg(pr)     # the SMT child of a finished / crashed cbmc
     if winner is None:
         # all finished without a result, or timeout
         if time.time() - t0 >= timeout:
